@@ -36,8 +36,10 @@ Definition is_switch (g : graph) (k : key) : bool := na_switch (nattr_of g k).
 Definition is_head (g : graph) (k : key) : bool := na_head (nattr_of g k).
 Definition is_child (g : graph) (k : key) : bool := na_child (nattr_of g k).
 
+(* graph.predecessors(k): the DAG handed to the run manager is a copy of the graph the builder filled (builder.py: graph=self._dag.copy()),
+   and a copy re-inserts the edges source by source in node order, so the predecessors of k come in the order of the node table *)
 Definition preds_e (g : graph) (k : key) : list (key * eattr) :=
-  flat_map (fun e => if key_eqb (snd (fst e)) k then [(fst (fst e), snd e)] else []) (g_edges g).
+  flat_map (fun u => match alookup edge_eqb (u, k) (g_edges g) with Some a => [(u, a)] | None => [] end) (map fst (g_nodes g)).
 Definition preds (g : graph) (k : key) : list key := map fst (preds_e g k).
 Definition succs (g : graph) (k : key) : list key :=
   flat_map (fun e => if key_eqb (fst (fst e)) k then [snd (fst e)] else []) (g_edges g).
